@@ -47,6 +47,17 @@ Theorem C04_machine : forall s p mx my mz,
 Proof. exact machine_follows. Qed.
 Print Assumptions C04_machine.
 
+(* ... and therefore over whole histories: for every affine transform, every start, either distance mode and EVERY
+   sequence of (partial) requests, a machine that starts at transform(tracked position) is at transform(tracked position)
+   after every move (unrounded words; the rounding is C01's error accounting) *)
+Theorem C04_history : forall reqs s mx my mz,
+  mx == res1 (px (img s (resolve (pos s)))) -> my == res1 (py (img s (resolve (pos s)))) ->
+  mz == res1 (pz (img s (resolve (pos s)))) ->
+  let '(s', (mx', my', mz')) := play s (mx, my, mz) reqs in
+  mx' == res1 (px (img s' (resolve (pos s')))) /\ my' == res1 (py (img s' (resolve (pos s')))) /\
+  mz' == res1 (pz (img s' (resolve (pos s')))) /\ tf s' = tf s /\ dm s' = dm s.
+Proof. exact history_follows. Qed.
+
 (* non-vacuity: a rotation by (3/5, 4/5) about z combined with a translation couples X and Y:
    an absolute move that requests only X mentions Y as well, and leaves Z out *)
 Example C04_nonvacuous :
